@@ -2018,6 +2018,26 @@ def _c08_os_oracle(case, impl):
     if held:
         return 'fail still down at the OS after the macro ended / was cancelled and %d quiet ms: %s' % (tail, ','.join(held))
     inputs = [(k, v) for k, v in hist if k != 't']
+    # (3) cancel-on-press forms (family os-cancel-press, non-repeating: the macro key is tapped, then
+    #     the plain key is pressed): once the plain key's press has reached the OS the macro is
+    #     cancelled - it may release what it holds but must not press, click or type anything further
+    if _c08_os_family(case) == 'os-cancel-press' and len(inputs) == 4 and inputs[2][0] == 'p':
+        other = str(inputs[2][1])
+        tr = impl.split(' :: TRACE ')[1] if ' :: TRACE ' in impl else impl
+        t_now, t_other = 0, None
+        for tok in tr.split(' || ')[0].split(' '):
+            if tok in ('I', 'D'):
+                break
+            mt = re.fullmatch(r'@(\d+)R?', tok)
+            if mt:
+                t_now = int(mt.group(1))
+                continue
+            if tok == 'd' + other and t_other is None:
+                t_other = t_now
+                continue
+            if t_other is not None and t_now > t_other + 2 and re.match(r'(d\d|bd\d|U\+|uc|w[udlr])', tok) and tok != 'd' + other:
+                return ('fail macro not cancelled: the cancelling key reached the OS at %d, the macro still sent %s at %d'
+                        % (t_other, tok, t_now))
     if len(inputs) == 2 and inputs[0][0] == 'p' and inputs[1] == ('r', inputs[0][1]):
         y = inputs[0][1]
         mm = re.search(r';; expect-os %d ([^\n]*)' % y, cfg)
@@ -2080,3 +2100,48 @@ PROPS['C08']['determined'] = lambda case, out: _kan_evseq(case, out) if case.sta
 PROPS['C08']['determined_what'] = 'the order in which the key list sent to the OS changes, tick numbers aside (LAY / KAN lines); the order of the events sent to the OS - keys, mouse buttons, wheel, unicode - virtual times aside (KOS lines)'
 PROPS['C08']['rule'] += ('. OS-level slice (KOS lines: whole Kanata with the simulated output sink, compared with the kanata-level model on every OS event): 1-3 macros in all eight list actions whose bodies mix keys, output chords, held groups and delays with custom items - mouse buttons held and tapped, unmod / unshift keys, unicode, vertical and horizontal wheel, virtual-key taps on press and on release; every atom alone, every pair, under a held modifier, triples of custom items before a key (exhaustive); one activation; repeating forms held over several runs; release-cancel and cancel-on-press at every tick offset; two macros overlapping at every offset and random histories over 2-3 macros; a key with a custom action of its own pressed / released / tapped at every tick offset of the macro so that two custom events fall into one tick. Model-free oracle on the real trace: nothing (key or button) down at the OS after a balanced history and the quiet tail; one uninterrupted activation of a plain or cancel-on-press macro sends exactly the spelled list (carried in the configuration text as ;; expect-os)')
 PROPS['C08']['trusted_base'] = PROPS['C08']['trusted_base'] + ['Model/Kanata.lean as a transcription of src/kanata/mod.rs (KOS lines: checked differentially on OS events with virtual-time stamps, the idle flag and the layout digest)', 'the spelled OS event list of a macro body is written by the harness generator together with the configuration text (harness/src/c08.rs os_expect)']
+
+
+def _c18_free_oracle(case, impl):
+    """virtual keys in configurations outside the kanata-level model (chords v2 present): on the real
+    trace every down interval of a key named by `;; held-at-most <code> <n>` lasts at most n ticks and
+    the key is up at the end"""
+    if ' :: TRACE ' not in impl:
+        return None
+    lim = dict((m.group(1), int(m.group(2))) for m in re.finditer(r';; held-at-most (\d+) (\d+)', _cfg_text(case)))
+    if not lim:
+        return None
+    t_now, since = 0, {}
+    for tok in impl.split(' :: TRACE ')[1].split(' '):
+        if tok in ('I', 'D'):
+            break
+        mt = re.fullmatch(r'@(\d+)R?', tok)
+        if mt:
+            t_now = int(mt.group(1))
+            continue
+        m = re.fullmatch(r'([du])(\d+)', tok)
+        if m and m.group(2) in lim:
+            if m.group(1) == 'd':
+                since.setdefault(m.group(2), t_now)
+            else:
+                t0 = since.pop(m.group(2), None)
+                if t0 is not None and t_now - t0 > lim[m.group(2)]:
+                    return f'fail virtual key output {m.group(2)} stayed down for {t_now - t0} ticks (at most {lim[m.group(2)]} expected)'
+    if since:
+        return 'fail virtual key output still down at the end: ' + ','.join(sorted(since))
+    return 'ok'
+
+
+PROPS['C18']['free_oracle'] = _c18_free_oracle
+
+
+def _c19_os_stream(case, out):
+    """what reaches the OS, step by step (the first field of every step of the trace); the recording
+    and replay-queue digests are bookkeeping the statement does not fix"""
+    if out.startswith(('rej', 'crash', 'unsupported', 'bad')):
+        return out.split(' ')[0]
+    return ' | '.join(seg.split(';')[0].strip() for seg in out.split(' | '))
+
+
+PROPS['C19']['determined'] = _c19_os_stream
+PROPS['C19']['determined_what'] = 'the key events sent to the OS at every step (typing while recording, and the replay)'
